@@ -209,7 +209,8 @@ def probe_rows(hs, spec, shape='alone'):
 
 
 def _probe_rows(hs, spec):
-    rows = [{'id': 'plain', 'a': 'zz'}, {'id': 'noa'}]
+    rows = [{'id': 'plain', 'a': 'zz'}, {'id': 'noa'},
+            {'id': hs.Ref('tgt', 'Target display'), 'a': 'zz'}, {'id': 'src', 'r': hs.Ref('tgt')}]
     if spec is None:
         return rows
     kind = spec[0]
@@ -234,6 +235,18 @@ def _probe_rows(hs, spec):
     return rows
 
 
+def lookup_answers(hs, g):
+    """What the grid answers to id lookups (observable state beyond the rows); compared with a never-filtered twin."""
+    out = []
+    for key in ('plain', 'src', 'tgt', '@tgt', hs.Ref('tgt'), hs.Ref('tgt', 'Target display'), 'data', 'nowhere'):
+        try:
+            got = g.get(key)
+            out.append(None if got is None else [k for k, x in enumerate(g) if x is got])
+        except Exception as e:  # noqa
+            out.append('raised ' + type(e).__name__)
+    return out
+
+
 def task(items):
     import hszinc as hs
     import pyparsing
@@ -253,10 +266,14 @@ def task(items):
         text, twin = fmt % atom, fmt % twin_atom
         case = {'kind': 'canary', 'position': pos, 'shape': shape, 'filter': text, 'twin': twin, 'spec': list(spec) if spec else None}
         sig = {'position': pos, 'shape': shape}
-        g = hs.Grid(version='3.0', columns=[('id', []), ('a', []), ('zz', []), ('yy', [])])
+        g = hs.Grid(version='3.0', columns=[('id', []), ('a', []), ('r', []), ('zz', []), ('yy', [])])
+        twin_grid = hs.Grid(version='3.0', columns=[('id', []), ('a', []), ('r', []), ('zz', []), ('yy', [])])
         for r in probe_rows(hs, spec, shape):
             g.append(r)
+        for r in probe_rows(hs, spec, shape):
+            twin_grid.append(r)
         before_grid = O.observe_grid(g, hs)
+        answers_before = lookup_answers(hs, twin_grid)
         # twin first (same kind, same position), then the canary
         tout, tev, tflag, tw = run_filter(hs, g, twin)
         snap0 = snapshot()
@@ -282,6 +299,8 @@ def task(items):
         after_grid = O.observe_grid(g, hs)
         if N.same(before_grid, after_grid, 'exact'):
             problems.append(('filter-modified-the-grid', {}))
+        if lookup_answers(hs, g) != answers_before:
+            problems.append(('filter-changed-what-the-grid-answers', {}))
         if out[0] == 'ok':
             sel = set(out[1])
             if 'evaluated' in sel or 'canary-result' in sel:
